@@ -32,7 +32,7 @@ pub const C23: Check = Check {
                    "kill points are in routinator's own code; the rsync child is not interrupted"],
     shards: |_| 16,
     watchdog: |t| Duration::from_secs(t.pick(900, 7200)),
-    budget: |t| Duration::from_secs(t.pick(70, 1800)),
+    budget: |t| Duration::from_secs(t.pick(70, 600)),
     run: run_c23,
     crash_is_violation: false,
     finish: Some(finish_c23),
